@@ -142,6 +142,14 @@ theorem shift_int {nr nc : ℕ} (hr : 0 < nr) (hc : 0 < nc) {x : Img ℝ} (hx : 
   obtain ⟨g, rfl⟩ := hx.cx_build
   exact fourierShift_int_build hr hc g s t
 
+/-- the real-input branch (`shifted_array.real`): integer shifts of a real array are rolls too -/
+theorem shift_int_real {nr nc : ℕ} (hr : 0 < nr) (hc : 0 < nc) {x : RImg ℝ} (hx : Rect nr nc x) (s t : ℤ) :
+    fourierShiftReal x (s : ℝ) (t : ℝ) = roll2 x s t := by
+  obtain ⟨g, rfl⟩ := hx.exists_build
+  unfold fourierShiftReal
+  rw [build_map, fourierShift_int_build hr hc, roll2_build hr hc, roll2_build hr hc, build_map]
+  exact build_congr fun _ _ _ _ => rfl
+
 -- non-vacuity: rectangular images of every positive size exist, and `roll2` is the NumPy roll
 example : Rect 2 3 (build 2 3 fun i j => (⟨(i : ℝ), (j : ℝ)⟩ : Cx ℝ)) := rect_build _ _ _
 example : roll2 [[1, 2, 3], [4, 5, 6]] 1 (-1) = [[5, 6, 4], [2, 3, 1]] := by decide
